@@ -786,6 +786,60 @@ def _e2():
     return gen, build
 
 
+# ---- E3: three-level lists, projections held in locals, list-valued stores into / around the projected slot ----
+
+E3_BUILD = {
+    'lit': ['xsss = [[[{U}, {V}], [{V}, {U}]], [[{Euv}, {U}], [{V}, {V}]]]'],
+    'comp': ['xsss = [[[{U}, {V}] for _ in range(2)] for _ in range(2)]'],
+    'rows': ['r0 = [{U}, {V}]', 'r1 = [{V}, {U}]', 'xsss = [[r0, r1], [[{Euv}, {U}], [{V}, {V}]]]'],
+}
+E3_PROJ = {
+    # name: (projection statement, reads through the projection, write through the projection)
+    'p2': ('cell = xsss[0][1]', 'cell[0], cell[1]', 'cell[1] = {L}'),
+    'p1': ('plane = xsss[0]', 'plane[1][0], plane[0][1]', 'plane[1][1] = {L}'),
+}
+E3_STORE = {
+    # number of indices and which slot relative to xsss[0][1] / xsss[0]
+    's1-slot0': 'xsss[0] = [[{N}, {L}], [{L}, {N}]]',
+    's1-sibling': 'xsss[1] = [[{N}, {L}], [{L}, {N}]]',
+    's2-slot01': 'xsss[0][1] = [{N}, {L}]',
+    's2-sibling00': 'xsss[0][0] = [{N}, {L}]',
+    's2-sibling11': 'xsss[1][1] = [{N}, {L}]',
+    's3-elem': 'xsss[0][1][0] = {N}',
+}
+
+
+@family('E3')
+def _e3():
+    def gen(full):
+        if full:
+            for b, pr, st, wt, c, op in itertools.product(E3_BUILD, E3_PROJ, E3_STORE, (0, 1, 2),
+                                                           ['F64E', 'F32Z', 'F64P'], ['add', 'mul']):
+                yield ('E3', b, pr, st, wt, c, op)
+        else:
+            for b, pr, st in itertools.product(['lit', 'comp'], E3_PROJ, E3_STORE):
+                yield ('E3', b, pr, st, 0, 'F64E', 'add')
+            for pr, st in (('p2', 's2-slot01'), ('p1', 's1-slot0'), ('p2', 's1-slot0'), ('p1', 's2-slot01')):
+                yield ('E3', 'lit', pr, st, 1, 'F64E', 'add')
+                yield ('E3', 'lit', pr, st, 2, 'F64E', 'add')
+                yield ('E3', 'rows', pr, st, 0, 'F64E', 'add')
+
+    def build(b, pr, st, wt, c, op):
+        W = width(c)
+        env = Env(u=64, v=64)
+        subst = {'U': env.o('u', W), 'V': env.o('v', W), 'Euv': ex(op, env, W, 'u', 'v'),
+                 'N': ex(op, env, W, 'u', '3'), 'L': env.o('1.5', W)}
+        proj, reads, wthru = E3_PROJ[pr]
+        # wt: 0 = read only, 1 = also write through the projection after the store, 2 = also return the container
+        lines = E3_BUILD[b] + [proj, E3_STORE[st]] + ([wthru] if wt == 1 else [])
+        lines += [f'return {reads}, xsss[0][1][0], xsss[0][1][1], xsss[0][0][1], xsss[1][1][0]'
+                  + (', xsss' if wt == 2 else '')]
+        body = [f'with {c}:'] + ind([ln.format(**subst) for ln in lines])
+        return Program(('E3', b, pr, st, wt, c, op), 'E', f'E3:{b}:{pr}:{st}:wt{wt}:{op}:w{W}',
+                       fn('f', [('u', 's64'), ('v', 's64')], body), ['s64', 's64'], 'F64E')
+    return gen, build
+
+
 # ---- F: two-function modules -------------------------------------------------
 
 CALLEES = {
